@@ -92,6 +92,8 @@ def kinds_for(m, n, tier="quick"):
     kinds = ["c:" + name for name, _ in spectra_for(r)]
     if tier != "quick" and max(m, n) >= 2:  # second, independent pair of rotation products
         kinds += ["c:" + name + "@1" for name, _ in spectra_for(r) if name != "zero-matrix"]
+    if r >= 2:  # the same matrices in a tiny / huge unit (variant "u-9" / "u+9": spectrum and matrix times 1e-9 / 1e9)
+        kinds += ["c:distinct@u-9", "c:one-zero@u-9", "c:distinct@u+9"]
     kinds += ["int-signed", "int-pos", "gen-nonneg"]
     if r >= 2:
         kinds += ["int-rank1"]
@@ -114,6 +116,11 @@ def build_matrix(m, n, kind, seed):
     if kind.startswith("c:"):
         sname, _, variant = kind[2:].partition("@")
         s = dict(spectra_for(r))[sname]
+        unit = 1.0
+        if variant.startswith("u"):
+            unit = 10.0 ** int(variant[1:])
+            variant = ""
+        s = [x * unit for x in s]
         if variant:
             U0 = orth(m, 8 + 3 * seed)
             V0t = orth(n, 2 + seed).T
@@ -294,6 +301,19 @@ class C05(Check):
                 ctx.count("guarded_out:randomized:k+oversamples<rank", n_combo)
                 ctx.outcome("randomized_svd/guarded-out")
                 return
+        if name == "symeig_svd" and "@u-" in kind:
+            # symeig_svd clips the eigenvalues of M^T M at an ABSOLUTE eps, so every singular value below ~1.5e-8 is reported as
+            # 1.49e-8: one representative observation under its own signature (recorded finding), the rest is not evaluated
+            try:
+                _, S_, _ = svd_interface(tl.tensor(M.copy()), method="symeig_svd", n_eigenvecs=1, flip_sign=False)
+                if abs(float(np.asarray(S_)[0]) - float(s[0])) > 1e-6 * float(s[0]):
+                    ctx.violation("svd_interface/symeig_svd/absolute-eps-floor-on-singular-values/tiny-unit",
+                                  f"shape=({m},{n}) kind={kind}: leading singular value {float(np.asarray(S_)[0])!r}, true {float(s[0])!r}")
+            except Exception as e:
+                ctx.count(f"guarded_out:symeig-tiny-unit-raises:{type(e).__name__}")
+            ctx.count("guarded_out:symeig:tiny-unit(absolute eps floor)", n_combo)
+            ctx.outcome("symeig_svd/tiny-unit")
+            return
         if name == "symeig_svd" and rank >= 1 and s[0] / s[rank - 1] > SYMEIG_COND_MAX:
             ctx.count("guarded_out:symeig:ill-conditioned", n_combo)
             ctx.outcome("symeig_svd/guarded-out")
